@@ -23,6 +23,14 @@ from .. import common as C
 from ..flow import Flow
 from . import c08
 
+# Which code variant the extracted model mirrors, one flag per fix candidate ("0" = the code before the
+# repair, "1" = the repaired code; see .cache/prompts/C09-{4,2,3}-fix.diff).  Flip a default to "1" once
+# the corresponding repair is committed in /repo (and mark the finding `fixed` in known_findings.d/C09.json).
+FIX_ZERO = os.environ.get("VERIF_C09_FIX_ZERO", "1") == "1"      # C09-4  0e20
+FIX_I128 = os.environ.get("VERIF_C09_FIX_I128", "1") == "1"      # C09-2  i128 literal limit
+FIX_ISIZE = os.environ.get("VERIF_C09_FIX_ISIZE", "1") == "1"    # C09-3  isize literal limit
+DRV_ARGS = ["%d%d%d" % (FIX_ZERO, FIX_I128, FIX_ISIZE)]
+
 INT_TYPES = [("i8", "s8"), ("i16", "s16"), ("i32", "s32"), ("i64", "s64"), ("i128", "s128"), ("isize", "s255"),
              ("u8", "u8"), ("u16", "u16"), ("u32", "u32"), ("u64", "u64"), ("u128", "u128"), ("usize", "u255")]
 SIZE = {"i8": 1, "u8": 1, "i16": 2, "u16": 2, "i32": 4, "u32": 4, "i64": 8, "u64": 8, "isize": 8, "usize": 8,
@@ -89,7 +97,7 @@ def run(tier, seed):
     har = fl.harness("h_c09")
     capy = fl.capy()
     rng = fl.rng.fork("lits")
-    nrand = 60 if tier == "quick" else 1500
+    nrand = 60 if tier == "quick" else 500
     values = boundary_values()
     for _ in range(nrand):
         bits = rng.range(1, 66)
@@ -111,7 +119,7 @@ def run(tier, seed):
 
     if drv and har:
         # ---- accept ---------------------------------------------------------------------------
-        ires = C.run_lines([drv], ["I " + s for s in sps], indexed=False)
+        ires = C.run_lines([drv] + DRV_ARGS, ["I " + s for s in sps], indexed=False)
         lit = {}
         for s, r in zip(sps, ires):
             f = r.split()
@@ -131,7 +139,7 @@ def run(tier, seed):
             mv = lit[s][0]
             sv = lit[s][1]
             alines.append("A %s %s" % (code, mv if mv != "REJ" else (sv if sv != "REJ" else "0")))
-        ares = C.run_lines([drv], alines, indexed=False)
+        ares = C.run_lines([drv] + DRV_ARGS, alines, indexed=False)
         srcs = ["main :: () {\n    x : %s = %s;\n}\n" % (tn, s) for (s, tn, _) in cases]
         impl = C.run_lines([har], [x.encode().hex() for x in srcs], case_timeout=20)
         diffs = 0
@@ -211,7 +219,7 @@ def run(tier, seed):
         for l, s in shapes:
             elines.append(l)
             esrc.append(s)
-        emod = C.run_lines([drv], elines, indexed=False)
+        emod = C.run_lines([drv] + DRV_ARGS, elines, indexed=False)
         eimpl = C.run_lines([har], [x.encode().hex() for x in esrc], case_timeout=20)
         ediffs = 0
         efirst = None
@@ -252,7 +260,7 @@ def run(tier, seed):
             # unannotated locals
             usp = [s for s in sps if s in lit and lit[s][0] != "REJ"]
             usp = usp if tier == "thorough" else usp[::2]
-            dres = C.run_lines([drv], ["D " + lit[s][0] for s in usp], indexed=False)
+            dres = C.run_lines([drv] + DRV_ARGS, ["D " + lit[s][0] for s in usp], indexed=False)
             for s, d in zip(usp, dres):
                 k += 1
                 n = int(lit[s][1], 16)
@@ -397,6 +405,7 @@ def run(tier, seed):
         "float literals: tested only (Python exact rational oracle), no Coq model",
         "global literals: tested only against the rule i32 unless > u32::MAX (then u64)",
         "pointer width 64",
+        "model variant: FIX_ZERO=%s FIX_I128=%s FIX_ISIZE=%s (1 = mirrors the repaired code)" % (FIX_ZERO, FIX_I128, FIX_ISIZE),
     ]
     return fl.finish()
 
